@@ -254,6 +254,8 @@ def run_in_process(plan) -> tuple[list, dict]:
     finally:
         try:
             loop.run_until_complete(loop.shutdown_asyncgens())
+            for _ in range(3):  # let aclose() tasks of generators that were never resumed finish (hygiene only)
+                loop.run_until_complete(asyncio.sleep(0))
         finally:
             loop.close()
 
